@@ -40,7 +40,7 @@ def plan(tier, seed):
 def floors(tier):
     return {"distinct_nontrivial": 300, "variants_compared": 5000, "cls:variant_syntactically_different": 3000,
             "cls:decl_order_permuted": 1000, "cls:sel_order_permuted": 500, "cls:split_top_and": 100,
-            "cls:nvars=3": 300, "cls:nvars=4": 100, "cls:for_all_query": 200, "cls:flatten_query": 100, "cls:flatten_of_plain_numbers": 60, "cls:concatenate_query": 100}
+            "cls:nvars=3": 300, "cls:nvars=4": 100, "cls:for_all_query": 200, "cls:flatten_query": 100, "cls:flatten_of_plain_numbers": 60, "cls:concatenate_query": 100, "cls:feature_interaction_query": 150}
 
 
 def cases(spec, ctx):
@@ -68,6 +68,19 @@ def cases(spec, ctx):
                 variants.append({"cond_order": rng.choice([[0, 1, 2], [2, 1, 0], [1, 2, 0], [2, 0, 1], [0, 2, 1]]), "perm": pr,
                                  "swap": rng.random() < 0.6})
             yield {"flatten": base, "variants": variants}
+            continue
+        if rng.random() < 0.1:
+            # feature-interaction query (eqlmon/ix.py) with the parent domain permuted
+            from .. import ix
+            c_ = ix.gen_case(rng)
+            c_["caching"] = True
+            n_ = len(c_["world"]["parents"])
+            perms = []
+            for _ in range(3):
+                pr = list(range(n_))
+                rng.shuffle(pr)
+                perms.append(pr)
+            yield {"ixperm": c_, "perms": perms}
             continue
         if rng.random() < 0.06:
             # membership in the concatenated collection of a parent that an earlier conjunct binds; parent domain permuted and
@@ -233,7 +246,34 @@ def check_concat_case(case, ctx):
     ctx.sample({"concatenate": case["concat"], "rows": len(base)})
 
 
+def check_ixperm_case(case, ctx):
+    from .. import ix
+    c = case["ixperm"]
+    ctx.cls("cls:feature_interaction_query")
+    try:
+        base = set(ix.run(c, True)[0][0])
+        for vi, pr in enumerate(case["perms"]):
+            ctx.count("variants_compared")
+            if pr != sorted(pr):
+                ctx.cls("cls:variant_syntactically_different")
+            back = {f"Par{j}": f"Par{orig}" for j, orig in enumerate(pr)}
+            alt = {tuple(back.get(x, x) for x in r) for r in ix.run(c, True, perm=pr)[0][0]}
+            if alt != base:
+                ctx.fail("IX_SET:" + ("missing" if base - alt else "") + ("+extra" if alt - base else ""),
+                         {"variant": vi, "parents_permutation": pr, "query": {k: c[k] for k in ("c0", "c1", "atoms", "sel")},
+                          "only_base": sorted(base - alt)[:6], "only_variant": sorted(alt - base)[:6]}, variant=vi)
+                break
+    except Exception as e:
+        ctx.fail("EXC", f"ixperm: {type(e).__name__}: {e}")
+        return
+    if base:
+        ctx.nontrivial()
+    ctx.sample({"feature_interaction": {k: c[k] for k in ("c0", "c1", "atoms", "sel")}, "rows": len(base)})
+
+
 def check_case(case, ctx):
+    if "ixperm" in case:
+        return check_ixperm_case(case, ctx)
     if "concat" in case:
         return check_concat_case(case, ctx)
     if "flatten" in case:
@@ -284,7 +324,7 @@ def check_case(case, ctx):
 def classify(f, ctx):
     """A variant that disagrees with the base: decide with the oracle which side is wrong, then K05 attribution on it."""
     case = f["case"]
-    if "flatten" in case or "concat" in case:
+    if "flatten" in case or "concat" in case or "ixperm" in case:
         return None
     if "forall" in case:
         if f["kind"] not in ("FORALL_SET:missing", "FORALL_SET:+extra") or "variant" not in f:
